@@ -969,7 +969,11 @@ class UnitQuaternion(Quaternion):
 
         if v is None:
             # single argument
-            if super().arghandler(s, check=check):
+            if isinstance(s, np.ndarray) and s.shape == (4,):
+                # a 4-vector given as an array is normalised, exactly as one given as a list is
+                self.data = [base.unit(s)]
+
+            elif super().arghandler(s, check=check):
                 # create unit quaternion
                 self.data = [base.unit(q) for q in self.data]
 
